@@ -56,8 +56,14 @@ def gen_case(seed, tier, idx):
     st = Streams(seed)
     rc = st.get("config")
     mode = bm._pick(rc, [("machine", 5), ("sweep", 3), ("sdeint", 2)])
+    huge = rc.random() < 0.06
     if mode == "machine":
         cfg = bm.gen_config(rc)
+        if huge and cfg["front"] in ("interval", "reverse") and xf(cfg["tol"]) == 0:
+            # time origin so large that consecutive representable times are 2^-8 apart
+            cfg["t0"], cfg["t1"] = fx(2.0 ** 44), fx(2.0 ** 44 + 64.0)
+            if cfg["dt"] is not None:
+                cfg["dt"] = fx(rc.choice([0.25, 2.0 ** -8, 1e-3]))
         dom = domain(cfg)
         ro = st.get("ops")
         n = ro.choice([1, 5, 20, 60, 150] if tier == "quick" else [1, 5, 20, 60, 150, 400])
@@ -76,6 +82,9 @@ def gen_case(seed, tier, idx):
             n = rc.choice([120, 250, 400] if tiny_cache else [120, 400, 1000, 3000, 10000, 30000, 100000])
         if cfg["halfway"]:
             n = min(n, 1000)
+        if huge and cfg["front"] in ("interval", "reverse") and xf(cfg["tol"]) == 0 and not cfg["halfway"]:
+            cfg["t0"], cfg["t1"] = fx(2.0 ** 44), fx(2.0 ** 44 + 2.0)
+            n = min(n, 512)  # 2 / 2^-8 representable steps
         t0, t1 = xf(cfg["t0"]), xf(cfg["t1"])
         if cfg["front"] == "path":
             t1 = t0 + 1.0
